@@ -942,10 +942,23 @@ func c09Coq(c *c09Case) string {
 	if c.CancelMs > 0 {
 		canc = fmt.Sprintf("(Some %d)", c09U(c.CancelMs))
 	}
-	return fmt.Sprintf("mkcase (mkcfg %d %d %d %d %d %d) %s [%s] %d %d %d [%s] %s %s %d %s %s %s %s [%s] [%s] (%d, %d, %d)",
+	return fmt.Sprintf("mkcase (mkcfg %d %d %d %d %d %d) %s [%s] %d %d %s [%s] %s %s %d %s %s %s %s [%s] [%s] (%d, %d, %d)",
 		c09U(c.DialMs), c09U(c.WriteMs), c09U(c.ReadMs), c.QueueLen, objMax, idle, conn, strings.Join(acts, "; "),
-		c.Callers, c.Calls, c09U(c.eff()), strings.Join(gl, "; "), coqBool(c.OneWay), canc, c.RejectMod, coqBool(c.Prime && c.Callers > 1), pred, nconn, held, strings.Join(obs, "; "), strings.Join(evs, "; "),
+		c.Callers, c.Calls, c09Tmo(c), strings.Join(gl, "; "), coqBool(c.OneWay), canc, c.RejectMod, coqBool(c.Prime && c.Callers > 1), pred, nconn, held, strings.Join(obs, "; "), strings.Join(evs, "; "),
 		c09NN(o.QueueLen), c09NN(o.InvokeNum), len(o.Pending))
+}
+
+// c09Tmo renders the three sources of the call's timeout as they are (the model derives the effective timeout itself)
+func c09Tmo(c *c09Case) string {
+	z := func(ms int) string { return fmt.Sprintf("(%d)%%Z", ms/10) }
+	pc, cx := "None", "None"
+	if c.PerCallSet || c.PerCallMs > 0 {
+		pc = "(Some " + z(c.PerCallMs) + ")"
+	}
+	if c.CtxMs > 0 {
+		cx = fmt.Sprintf("(Some %d)", c09U(c.CtxMs))
+	}
+	return fmt.Sprintf("(mktmo %s %s %s)", z(c.TimeoutMs), pc, cx)
 }
 
 // ids and counters are rendered as naturals (a negative value can only come from a defect and is mapped to a large number)
